@@ -6,11 +6,15 @@
 
    record kinds (field t):
      "pair"    a, b, eq, ne, eq_r, ne_r ("True" | "False" | "raise:<Type>" | "nonbool:<type>"),
-               ha, hb ("ok" | "raise:<Type>"), heq, set_res, set_n, dict_res, dict_n, exp
+               ha, hb ("ok" | "raise:<Type>"), heq, set_res, set_n, dict_res, dict_n, exp,
+               eq2, ne2, eq_r2, ne_r2 (the comparisons repeated afterwards), hstable (hash(a) unchanged);
+               in HISTORY records a is an object that has been used (rendered, tokenized, serialized,
+               hashed, put into a set ...) and b a fresh object: the value semantics has no history
      "foreign" a, eq, ne, eq_r, ne_r                      (right operand is not a maze)
      "dedup"   ms (list of mazes), hs_ok, set_res, set_n, dict_res, dict_first (0-based kept indices)
      "ctor"    kind, R, C, start, end (requested), res, got_start, got_end
-     "ds"      ca, cb (compared cfg fields), na, nb (n_mazes), ceq (real cfg == cfg), ma, mb, eq, ne
+     "ds"      ca, cb (compared cfg fields incl. applied filters), na, nb (n_mazes), ceq (real cfg == cfg),
+               ma, mb (the CURRENT maze lists), eq, ne, eq_r, ne_r, eq2, eq_r2
      "build"   kind, conn, start, end, sol, res: a maze of the scope could NOT be constructed (res = the exception)
    Layer P = the property's clauses; "M:" clauses only say that the harness / scope model and the
    real objects disagree about something the property does not state. *)
@@ -29,6 +33,11 @@ PairClauses(r) ==
   \cup If(IsBool(r.eq_r) /\ Truth(r.eq_r) # e, "eq_truth_table_reflected")
   \cup If(IsBool(r.ne) /\ Truth(r.ne) # Ne(r.a, r.b), "ne_truth_table")
   \cup If(IsBool(r.ne_r) /\ Truth(r.ne_r) # Ne(r.a, r.b), "ne_truth_table_reflected")
+  \* history must not matter: the same comparisons repeated after hashing / set / dict use, other order first
+  \cup If(~(IsBool(r.eq2) /\ IsBool(r.eq_r2) /\ IsBool(r.ne2) /\ IsBool(r.ne_r2)), "eq_raises_when_repeated")
+  \cup If((IsBool(r.eq2) /\ Truth(r.eq2) # e) \/ (IsBool(r.eq_r2) /\ Truth(r.eq_r2) # e), "eq_truth_table_when_repeated")
+  \cup If((IsBool(r.ne2) /\ Truth(r.ne2) # ~e) \/ (IsBool(r.ne_r2) /\ Truth(r.ne_r2) # ~e), "ne_truth_table_when_repeated")
+  \cup If(r.ha = "ok" /\ ~r.hstable, "hash_changes_over_time")
   \cup If(~hashed, "unhashable")
   \cup If(hashed /\ e /\ ~r.heq, "hash_inconsistent")
   \cup (IF r.set_res # "ok" THEN {"set_raises"} ELSE If(r.set_n # (IF e THEN 1 ELSE 2), "set_dedup"))
@@ -63,9 +72,10 @@ CtorClauses(r) ==
 CfgEq(r) == IF r.ca # r.cb THEN FALSE ELSE IF r.na = r.nb THEN TRUE ELSE Truth(r.ceq)
 DsClauses(r) ==
   LET e == DsEq(CfgEq(r), r.ma, r.mb) IN
-  If(~(IsBool(r.eq) /\ IsBool(r.ne)), "ds_eq_raises")
-  \cup If(IsBool(r.eq) /\ Truth(r.eq) # e, "ds_eq_truth_table")
-  \cup If(IsBool(r.ne) /\ Truth(r.ne) # ~e, "ds_ne_truth_table")
+  If(~(IsBool(r.eq) /\ IsBool(r.ne) /\ IsBool(r.eq_r) /\ IsBool(r.ne_r) /\ IsBool(r.eq2) /\ IsBool(r.eq_r2)), "ds_eq_raises")
+  \cup If((IsBool(r.eq) /\ Truth(r.eq) # e) \/ (IsBool(r.eq_r) /\ Truth(r.eq_r) # e), "ds_eq_truth_table")
+  \cup If((IsBool(r.ne) /\ Truth(r.ne) # ~e) \/ (IsBool(r.ne_r) /\ Truth(r.ne_r) # ~e), "ds_ne_truth_table")
+  \cup If((IsBool(r.eq2) /\ Truth(r.eq2) # e) \/ (IsBool(r.eq_r2) /\ Truth(r.eq_r2) # e), "ds_eq_truth_table_when_repeated")
   \cup If(~IsBool(r.ceq) \/ (r.ca # r.cb /\ Truth(r.ceq)) \/ (r.ca = r.cb /\ r.na = r.nb /\ ~Truth(r.ceq)), "M:cfg_eq_model")
 
 \* every maze of the scope is well formed (invariant ScopeWellFormed), so a constructor refusing one
